@@ -177,15 +177,34 @@ class PyBindGen:
                 head.append((role, n))
                 if rng.random() < 0.5:
                     decls.append(("assign", n, ids.const(), wchoice(rng, PY_BLOCKS)))
-        # children
+        # children. Function nesting is bounded by the number of FUNCTION levels (+1 inside a class), class nesting by 3 levels:
+        # a class body may hold a nested class, whose methods (and the closures in them) must not see the outer class bodies,
+        # and whose own body sees its own names but not those of the outer class.
+        chain, q = [], sc
+        while q is not None:
+            chain.append(q)
+            q = q.parent
+        fdepth = sum(1 for q in chain if q.kind == "function")
+        cdepth = 0
+        for q in chain:
+            if q.kind != "class":
+                break
+            cdepth += 1
+        eff = fdepth + (1 if any(q.kind == "class" for q in chain) else 0)
         if sc.kind == "class":
             nchild = wchoice(rng, [(1, 6), (2, 4)])
         else:
             nchild = {0: wchoice(rng, [(2, 5), (3, 5)]), 1: wchoice(rng, [(0, 2), (1, 5), (2, 3)]),
-                      2: wchoice(rng, [(0, 5), (1, 5)])}.get(depth, 0)
+                      2: wchoice(rng, [(0, 5), (1, 5)])}.get(eff, 0)
         fn_pool = FN_NAMES + (["m", "n"] if sc.kind == "class" else [])
+        if sc.kind == "class" and cdepth < 3 and rng.random() < 0.5:
+            free = [c for c in CL_NAMES + ["M"] if c not in sc.children and all(c != q.name for q in chain)]
+            if free:
+                ch = self.new_scope("class", rng.choice(free), sc)
+                sc.children[ch.name] = ch
+                decls.append(("def", ch))
         for _ in range(nchild):
-            if sc.kind != "class" and depth < 2 and rng.random() < 0.3:
+            if sc.kind != "class" and fdepth < 2 and rng.random() < 0.3:
                 free = [c for c in CL_NAMES if c not in sc.children]
                 if not free:
                     continue
@@ -226,12 +245,17 @@ class PyBindGen:
                     late.append(("use", ids.use(), n, not py_visible(sc, n)))
         # calls of the children (a class's methods are called by the scope that defines the class)
         if sc.kind != "class":
+            def method_calls(top, path):
+                for m in path[-1].children.values():
+                    if m.kind == "function":
+                        calls.append(("mcall", ids.call(), top, m, list(path)))
+                    else:
+                        method_calls(top, path + [m])       # a nested class: K.L().m(...) from the scope that defines K
             for ch in sc.children.values():
                 if ch.kind == "function":
                     calls.append(("call", ids.call(), ch))
                 else:
-                    for m in ch.children.values():
-                        calls.append(("mcall", ids.call(), ch, m))
+                    method_calls(ch, [ch])
             # an extra call through whatever is visible under a function name (exercises call-name binding of outer functions)
             for n in FN_NAMES:
                 if n not in sc.children and rng.random() < 0.15:
@@ -408,11 +432,12 @@ class PyRender:
                 ln = self.emit(ind, f"{self.nm(ctag, n, sid)}({', '.join(args)})")
                 m["calls"][ctag] = {"name": rn, "scope": sid, "line": ln, "callee": ch.sid, "kind": "call"}
             elif k == "mcall":
-                _, ctag, cls, meth = it
+                _, ctag, cls, meth, path = it
                 args = [f'"{ctag}"'] + [str(c) for _, c in meth.params]
                 rn = self.rename.get(ctag, cls.name)
                 mname = self.rename.get(f"d{meth.sid}", meth.name)
-                ln = self.emit(ind, f"{self.nm(ctag, cls.name, sid)}().{mname}({', '.join(args)})")
+                inner = "".join("." + self.rename.get(f"d{c_.sid}", c_.name) for c_ in path[1:])
+                ln = self.emit(ind, f"{self.nm(ctag, cls.name, sid)}{inner}().{mname}({', '.join(args)})")
                 m["calls"][ctag] = {"name": rn, "scope": sid, "line": ln, "callee": meth.sid, "kind": "mcall", "cls": cls.sid}
 
 
@@ -550,7 +575,10 @@ class JsBindGen:
                 cls.ident = ids.const()
                 sc.decls[cname] = ("class", cls.ident)
                 sc.lets.add(cname)
-                for mname in rng.sample(["m", "n"], wchoice(rng, [(1, 6), (2, 4)])):
+                # static fields and methods named like the pool names: members of a class are never in scope as bare names
+                cls.statics = [(n_, ids.const()) for n_ in VAR_NAMES if rng.random() < 0.4]
+                mnames = rng.sample(["m", "n"], wchoice(rng, [(1, 6), (2, 4)])) + ([rng.choice(FN_NAMES)] if rng.random() < 0.4 else [])
+                for mname in mnames:
                     meth = self.new_scope("function", "method", cls)
                     meth.name = mname
                     cls.children.append(meth)
@@ -706,6 +734,8 @@ class JsRender:
                 ln = self.emit(ind, f"class {self.nm(key, cls.name, sid)} {{ /*D{cls.ident}*/")
                 m["scopes"][cls.sid] = {"kind": "class", "style": "class", "name": rn, "line": ln, "parent": sid}
                 m["idents"][cls.ident] = cls.sid
+                for n_, c_ in getattr(cls, "statics", []):
+                    self.emit(ind + 1, f"static {n_} = {c_};")
                 for meth in cls.children:
                     ps = ["ct"] + [self.nm(f"p{c}", p, meth.sid) for p, c in meth.params]
                     ln2 = self.emit(ind + 1, f"{meth.name}({', '.join(ps)}) {{ /*D{meth.ident}*/")
